@@ -186,7 +186,10 @@ def process_item(item, history=None):
         rec = outcome_of(parser, canon_text, root)
         out = {'i': item['i'], 'text': canon_text, 'rec': rec}
         if rec[0] != 'ok':
-            return out, viol            # not a valid expression in the first place: nothing to compare
+            # every template is a valid XPath 3.1 expression
+            violate('GROUPING', 'valid-expression-rejected:fixed:' + canon_text,
+                    '3.1 rejects the template %r (%r)' % (canon_text, rec[1]), ['template:' + canon_text])
+            return out, viol
         rec_var = outcome_of(parser_for(v), varied_text, root)
         out['varied'] = [varied_text, rec_var]
         feats.append('fixed-template')
